@@ -622,7 +622,8 @@ theorem hyg_cmpOpPath (o : CmpOp) : Hyg o.path := by cases o <;> hyg_simp [CmpOp
 theorem hyg_cmp (c : CmpImpl) : ∀ ts ∈ c.render, Hyg ts := by
   intro ts hts
   unfold CmpImpl.render at hts
-  have hw : Hyg (c.wc.build fun ty => U ty.toks +++ ":" ::: c.op.path) := hyg_where_simple _ _ (hyg_cmpOpPath _)
+  have hw : Hyg ((c.wc.selfExpanded (DX.thisTy c.name c.generics)).build fun ty => U ty.toks +++ ":" ::: c.op.path) :=
+    hyg_where_simple _ _ (hyg_cmpOpPath _)
   cases hop : c.op <;> rw [hop] at hts hw <;> simp only [List.mem_cons, List.not_mem_nil, or_false] at hts
   all_goals
     first
